@@ -553,32 +553,40 @@ def trim_preserves_nonnull(lex):
 
 
 def parser_tok_guard(c, chk):
-    """cfg_parse_internal tests tok == 0 and tok == EOF before anything reads cfg_yylval"""
-    fn = c.need('cfg_parse_internal')
-    calls = list(fn.calls('cfg_yylex'))
-    if len(calls) != 1:
-        raise report.Broken('cfg_parse_internal: expected exactly one cfg_yylex() call, found %d' % len(calls))
-    tok = calls[0].res
-    guards = {}
-    for ins in fn.instrs():
-        if ins.op == 'icmp' and ins.pred in ('eq', 'ne') and ins.ops[0].kind == 'reg' and ins.ops[0].name == tok \
-                and ins.ops[1].kind == 'int' and ins.ops[1].ival in (0, -1):
-            guards[ins.ops[1].ival] = ins
-    uses = [ins for ins in fn.instrs() if ins.op == 'load' and ins.ops[0].kind == 'global' and ins.ops[0].name == '@cfg_yylval']
-    bad = []
-    for u in uses:
-        for k in (0, -1):
-            g = guards.get(k)
-            if g is None or not _cfg.instr_dominates(fn, g, u):
-                bad.append((u, k))
+    """the parser looks at cfg_yylval only for tokens whose scanner action sets it: for the error token (0) and for
+    end of input nothing that the parser does may depend on it"""
+    from .. import parsermodel as pm
+    model = pm.ParserModel(c)
+    YL = ('g', '@cfg_yylval')
+
+    def reads(v):
+        return isinstance(v, tuple) and sym.mentions(v, lambda x: x[0] == 'ld' and x[1] == YL)
+    n = 0
+    bad = None
+    for tok in (pm.TOKENS['ERR'], pm.TOKENS['EOF']):
+        for s_ in model.states:
+            try:
+                trs = model.transitions(s_, tok)
+            except sym.AnalysisIncomplete:
+                continue
+            for tr in trs:
+                n += 1
+                for e in tr.events:
+                    vals = list(e.args or []) if e.kind == 'call' else [e.val, e.addr] if e.kind == 'store' else [e.val] if e.kind == 'ret' else []
+                    if any(reads(v) for v in vals if v is not None):
+                        bad = bad or (tr, e)
+                for cn, t, _ in tr.assume:
+                    if reads(cn):
+                        bad = bad or (tr, None)
     if bad:
-        u, k = bad[0]
-        chk.fail('R2.4', 'parser-reads-yylval-unguarded', c.where(u),
-                 'cfg_parse_internal reads cfg_yylval at a point not dominated by the tok == %d test' % k)
+        tr, e = bad
+        chk.fail('R2.4', 'parser-reads-yylval-unguarded', c.where(e.ins) if e is not None else c.where(model.fn),
+                 'cfg_parse_internal uses cfg_yylval in state %d although the token is %s, for which the scanner does not set it (stale or NULL pointer)'
+                 % (tr.state, pm.TOKNAME.get(tr.tok, tr.tok)))
     else:
-        chk.ok('R2.4', 'cfg_parse_internal: %d reads of cfg_yylval' % len(uses),
-               'all dominated by the tok==0 and tok==EOF tests, so only tokens covered by the action rule reach them')
-    chk.floor('R2.4 parser reads of cfg_yylval', len(uses), 8)
+        chk.ok('R2.4', 'cfg_parse_internal: %d transitions on the error token / end of input' % n,
+               'none passes cfg_yylval to a call, stores it or branches on it: only tokens whose action sets it reach its uses')
+    chk.floor('R2.4 transitions on tokens without a value', n, 20)
 
 
 def qputc_guard(c, chk):
